@@ -1,13 +1,15 @@
-import SJ.Proofs.ViaValueText
+import SJ.Proofs.TypedAgreeMach
 /-!
 # The typed number scanner (`Typed.scanNumber` = `parse_integer` of `src/de.rs`) on arbitrary input and on a number literal
 
-* `scanNumber_partsWF`: whatever `scanNumber` returns satisfies `NumLink.PartsWF` (digits everywhere, a leading `0`
-  stands alone, at least one digit after `.` and after `e[±]`) — the domain of the conversion theorems of C07 / C08;
+* `scanNumber_tail` (+ `Typed.scanNumber_ok`): whatever `scanNumber` returns has digits everywhere, a leading `0` standing
+  alone, at least one digit after `.` and after `e[±]` (`NumLink.PartsWF`, the domain of the conversion theorems of
+  C07 / C08: `TypedFloatLink.scanNumber_partsWF`);
 * `scanNumber_lit`: on the bytes of an RFC 8259 number literal `p` followed by a terminator, `scanNumber` returns the
   parts `Spec.Canon.partsOf p` (up to the `raw` field, which no conversion reads) and stops right after the literal —
   unless the eager exponent guard `overflow!(exp * 10 + digit, i32::MAX)` fires on a non-zero significand with a
   positive exponent (then the literal has no value in any build: `Complete.no_eager_overflow`).
+No Mathlib (this file is below `TypedAgreeAll`).
 -/
 set_option linter.unusedSectionVars false
 set_option linter.unusedVariables false
@@ -16,9 +18,32 @@ namespace SJ.Proofs.TypedFloat
 open SJ SJ.Gen SJ.Model SJ.Model.Typed SJ.Model.Num SJ.Proofs.NumInt
 open SJ.Proofs.Typed (digitsOf_isDigits isDigit_iff scanInteger_ok scanNumber_ok atEof_ne_ok digitsOf_term digit_facts ScanOK
   scanAfterInt_parts scanExp_parts scanExpDigits_parts)
-open SJ.Proofs.NumLink (PartsWF)
-open SJ.Proofs.ViaValue (Term)
 open SJ.Spec.Grammar (NumParts isInt isFrac isExp)
+
+/-- what may follow the literal: nothing, or a byte that cannot continue a number (as `SJ.Proofs.ViaValue.Term`) -/
+def Term (rest : Bytes) : Prop :=
+  rest = [] ∨ ∃ c tl, rest = c :: tl ∧ Machine.isDigit c = false ∧ (c == 0x2e) = false ∧ (c == 0x65 || c == 0x45) = false
+
+theorem term_digit {rest : Bytes} (h : Term rest) : rest = [] ∨ ∃ c tl, rest = c :: tl ∧ Machine.isDigit c = false := by
+  rcases h with rfl | ⟨c, tl, rfl, h1, _, _⟩
+  · exact .inl rfl
+  · exact .inr ⟨c, tl, rfl, h1⟩
+
+theorem isDigits_of_allG (ds : Bytes) (h : ds.all Spec.Grammar.isDigit = true) : IsDigits ds := by
+  intro c hc
+  have := List.all_eq_true.1 h c hc
+  simpa [Spec.Grammar.isDigit] using this
+
+theorem int_head (int : Bytes) (h : isInt int = true) : ∃ d ds, int = d :: ds ∧ Spec.Grammar.isDigit d = true := by
+  rcases SJ.Proofs.Complete.int_shape int h with rfl | ⟨d, ds, rfl, hd, _, _⟩
+  · exact ⟨_, _, rfl, by decide⟩
+  · exact ⟨d, ds, rfl, hd⟩
+
+theorem scanAfterInt_int {env : Env} (hflt : env.flt = false) (neg : Bool) (int rest : Bytes) (pos : Nat) (hs : Term rest) :
+    scanAfterInt env neg int rest pos = .ok (mkParts neg int none none) rest pos := by
+  rcases hs with rfl | ⟨c, tl, rfl, _, h1, h2⟩
+  · simp [scanAfterInt, hflt]
+  · simp [scanAfterInt, h1, h2]
 
 /-! ## what the scanner returns -/
 
@@ -123,31 +148,6 @@ theorem scanNumber_tail (env : Env) (rest : Bytes) (pos : Nat)
   split at h
   · exact absurd h (atEof_ne_ok _ _ _ _ _ _)
   · split at h <;> exact scanInteger_tail _ _ _ _ _ _ _ h
-
-theorem all_of_isDigits (ds : Bytes) (h : IsDigits ds) : ds.all Spec.Decimal.isDigit = true := by
-  rw [List.all_eq_true]
-  intro c hc
-  have := h c hc
-  simp [Spec.Decimal.isDigit, this.1, this.2]
-
-/-- **the scanner's parts are well-formed** -/
-theorem scanNumber_partsWF (env : Env) (rest : Bytes) (pos : Nat)
-    (parts : Parts) (r : Bytes) (q : Nat) (h : scanNumber env rest pos = .ok parts r q) : PartsWF parts := by
-  obtain ⟨hd, hne, h0⟩ := scanNumber_ok rest pos parts r q h
-  obtain ⟨hf, he⟩ := scanNumber_tail env rest pos parts r q h
-  refine ⟨all_of_isDigits _ hd, ?_, fun fds e => ⟨(hf fds e).1, all_of_isDigits _ (hf fds e).2⟩,
-    fun en eds e => ⟨(he en eds e).1, all_of_isDigits _ (he en eds e).2⟩⟩
-  cases hi : parts.int with
-  | nil => exact absurd hi hne
-  | cons d tl =>
-    cases tl with
-    | nil => rfl
-    | cons x xs =>
-      simp only [bne_iff_ne, ne_eq]
-      intro e
-      subst e
-      have := h0 _ hi
-      cases this
 
 /-- the remaining input after a successful scan is a suffix, `q - pos` bytes further -/
 theorem conv_congr_default (p q : Parts) (h1 : p.neg = q.neg) (h2 : p.int = q.int) (h3 : p.frac = q.frac) (h4 : p.exp = q.exp) :
@@ -314,9 +314,6 @@ theorem litParts_convR (p : NumParts) : convertRoundtrip (litParts p) = convertR
 def NoEagerLit (p : NumParts) : Prop :=
   ∀ en eds, (Spec.Canon.partsOf p).exp = some (en, eds) → NoEager p.int (Spec.Canon.partsOf p).frac en eds
 
-theorem isDigits_of_allG (ds : Bytes) (h : ds.all Spec.Grammar.isDigit = true) : IsDigits ds :=
-  SJ.Proofs.ViaValue.isDigits_of_all ds h
-
 section
 variable {env : Env} (hflt : env.flt = false)
 include hflt
@@ -328,7 +325,7 @@ theorem scanAfterInt_lit (p : NumParts) (hwf : p.WF = true) (hne : NoEagerLit p)
   have hwf' := hwf
   simp only [NumParts.WF, Bool.and_eq_true] at hwf'
   obtain ⟨⟨hi, hf⟩, he⟩ := hwf'
-  have hrd : rest = [] ∨ ∃ c tl, rest = c :: tl ∧ Machine.isDigit c = false := SJ.Proofs.ViaValue.term_digit hs
+  have hrd : rest = [] ∨ ∃ c tl, rest = c :: tl ∧ Machine.isDigit c = false := term_digit hs
   -- the exponent part, given the fraction already read
   have hexp : ∀ (frac : Option Bytes) (q : Nat), frac = (Spec.Canon.partsOf p).frac → p.exp ≠ [] →
       ∃ c tl, p.exp ++ rest = c :: tl ∧ (c == 0x65 || c == 0x45) = true ∧
@@ -355,7 +352,7 @@ theorem scanAfterInt_lit (p : NumParts) (hwf : p.WF = true) (hne : NoEagerLit p)
       have hpe : (Spec.Canon.partsOf p).exp = none := by rw [SJ.Proofs.Complete.partsOf_exp, hx]; rfl
       have : litParts p = mkParts p.minus p.int none none := by simp only [litParts, hpf, hpe]
       rw [this]
-      exact SJ.Proofs.ViaValue.scanAfterInt_int hflt p.minus p.int rest pos hs
+      exact scanAfterInt_int hflt p.minus p.int rest pos hs
     · obtain ⟨c, tl, hct, hc, hsc⟩ := hexp none pos hpf.symm hx
       rw [hct]
       unfold scanAfterInt
@@ -413,7 +410,7 @@ theorem scanNumber_lit (p : NumParts) (hwf : p.WF = true) (hne : NoEagerLit p) (
         exact .inr ⟨c, ds ++ p.exp ++ rest, by simp, by rw [hf.1.2.1.1]; decide⟩
       | nil =>
         cases hex : p.exp with
-        | nil => simpa using SJ.Proofs.ViaValue.term_digit hs
+        | nil => simpa using term_digit hs
         | cons c r =>
           have he := hwf
           simp only [NumParts.WF, Bool.and_eq_true, hex, isExp] at he
@@ -440,7 +437,7 @@ theorem scanNumber_lit (p : NumParts) (hwf : p.WF = true) (hne : NoEagerLit p) (
       rw [this]
       simp only [List.length_cons]
       congr 1; omega
-  obtain ⟨d, ds, hdint, hd⟩ := SJ.Proofs.NumberAp.int_head p.int hi
+  obtain ⟨d, ds, hdint, hd⟩ := int_head p.int hi
   have hd' : Machine.isDigit d = true := hd
   have hbytes : p.bytes ++ rest = (if p.minus then [0x2d] else []) ++ (p.int ++ (p.frac ++ p.exp ++ rest)) := by
     simp [NumParts.bytes, List.append_assoc]
